@@ -288,6 +288,12 @@ func observe(fv reflect.Value, k spec.Kind) spec.KV {
 
 func digit(c byte) bool { return c >= '0' && c <= '9' }
 
+// show renders a value compactly (JSON) for messages.
+func show(v any) string {
+	b, _ := json.Marshal(v)
+	return string(b)
+}
+
 // ---------------------------------------------------------------------------------------------
 // evaluation of one (layout, values) case
 // ---------------------------------------------------------------------------------------------
@@ -405,7 +411,7 @@ func checkDecoded(op string, p program, l layout, vals []spec.KV, s reflect.Valu
 	for i, f := range l.Fields {
 		before[i] = observe(s.FieldByIndex(p.paths[i]), f.Kind)
 		if w := want(f, vals[i]); !spec.KindSame(f.Kind, before[i], w) {
-			fails = append(fails, failure{op, i, "wrong-value", fmt.Sprintf("%s of %x: field %d (%s at offset %d) = %+v, want %+v", op, buf[f.Offset:f.Offset+f.Kind.Width()], i, f.Name, f.Offset, before[i], spec.KindNorm(f.Kind, w))})
+			fails = append(fails, failure{op, i, "wrong-value", fmt.Sprintf("%s of %x: field %d (%s at offset %d) = %s, want %s", op, buf[f.Offset:f.Offset+f.Kind.Width()], i, f.Name, f.Offset, show(before[i]), show(spec.KindNorm(f.Kind, w)))})
 		}
 	}
 	for j := range buf {
@@ -413,7 +419,7 @@ func checkDecoded(op string, p program, l layout, vals []spec.KV, s reflect.Valu
 	}
 	for i, f := range l.Fields {
 		if after := observe(s.FieldByIndex(p.paths[i]), f.Kind); !spec.KVEqual(before[i], after) {
-			fails = append(fails, failure{op, i, "aliases-input", fmt.Sprintf("%s: field %d (%s at offset %d) was %+v and became %+v after the input buffer was complemented", op, i, f.Name, f.Offset, before[i], after)})
+			fails = append(fails, failure{op, i, "aliases-input", fmt.Sprintf("%s: field %d (%s at offset %d) was %s and became %s after the input buffer was complemented", op, i, f.Name, f.Offset, show(before[i]), show(after))})
 		}
 	}
 	for j := range buf {
@@ -468,10 +474,18 @@ func has(fails []failure, op string) bool {
 }
 
 // evaluate runs the real codec on one case and returns every deviation from the reference.
+// (memoised: attribution re-runs the same few projections for every failing case)
 func evaluate(l layout, vals []spec.KV, o options) []failure {
-	p := build(l)
-	return evaluateWith(p, l, vals, o)
+	k, _ := json.Marshal(layoutCase{l, vals, o})
+	if v, ok := evaluated.Load(string(k)); ok {
+		return v.([]failure)
+	}
+	fails := evaluateWith(build(l), l, vals, o)
+	evaluated.Store(string(k), fails)
+	return fails
 }
+
+var evaluated sync.Map
 
 func evaluateWith(p program, l layout, vals []spec.KV, o options) []failure {
 	ref, accept := reference(l, vals)
@@ -1184,7 +1198,7 @@ func replay(r *vk.Run) {
 	p := build(l)
 	ref, _ := reference(l, vals)
 	fmt.Printf("struct type: %v\n", p.t)
-	fmt.Printf("values:      %+v\n", vals)
+	fmt.Printf("values:      %s\n", show(vals))
 	fmt.Printf("reference message: %x\n", ref)
 	var out []byte
 	var merr error
@@ -1202,13 +1216,13 @@ func replay(r *vk.Run) {
 	} else {
 		fmt.Printf("library Unmarshal(reference message): err=%v\n", uerr)
 		for i, f := range l.Fields {
-			fmt.Printf("  field %d (%s at %d): decoded %+v, reference %+v\n", i, f.Name, f.Offset, observe(dst.Elem().FieldByIndex(p.paths[i]), f.Kind), spec.KindNorm(f.Kind, want(f, vals[i])))
+			fmt.Printf("  field %d (%s at %d): decoded %s, reference %s\n", i, f.Name, f.Offset, show(observe(dst.Elem().FieldByIndex(p.paths[i]), f.Kind)), show(spec.KindNorm(f.Kind, want(f, vals[i]))))
 		}
 		for j := range buf {
 			buf[j] = ^buf[j]
 		}
 		for i, f := range l.Fields {
-			fmt.Printf("  field %d after complementing the input buffer: %+v\n", i, observe(dst.Elem().FieldByIndex(p.paths[i]), f.Kind))
+			fmt.Printf("  field %d after complementing the input buffer: %s\n", i, show(observe(dst.Elem().FieldByIndex(p.paths[i]), f.Kind)))
 		}
 	}
 	o := lc.Opts
